@@ -25,6 +25,7 @@ import (
 	"sort"
 	"strings"
 	"sync"
+	"syscall"
 	"time"
 
 	"chainguard.dev/apko/pkg/apk/apk"
@@ -303,6 +304,7 @@ func startChild(scratch string, id int, o childOpts) func() childRes {
 	}
 	done := make(chan error, 1)
 	go func() { done <- cmd.Wait() }()
+	deadline := time.After(12 * time.Second) // from the start of the child
 	return func() childRes {
 		readTrace := func() []string {
 			b, err := os.ReadFile(tr)
@@ -311,7 +313,6 @@ func startChild(scratch string, id int, o childOpts) func() childRes {
 			}
 			return strings.Split(string(b), "\n")
 		}
-		deadline := time.After(15 * time.Second)
 		tick := time.NewTicker(time.Millisecond)
 		defer tick.Stop()
 		for {
@@ -337,9 +338,22 @@ func startChild(scratch string, id int, o childOpts) func() childRes {
 					}
 				}
 			case <-deadline:
-				cmd.Process.Kill()
-				<-done
-				return childRes{Status: "fail timeout", Trace: readTrace()}
+				// a build that does not finish: ask the Go runtime for the goroutine stacks, then kill
+				cmd.Process.Signal(syscall.SIGQUIT)
+				select {
+				case <-done:
+				case <-time.After(3 * time.Second):
+					cmd.Process.Kill()
+					<-done
+				}
+				dump := stderr.String()
+				if f := os.Getenv("VERIF_CACHE_HANGDUMP"); f != "" {
+					os.WriteFile(f, []byte(dump), 0o644)
+				}
+				if len(dump) > 4000 {
+					dump = dump[:4000]
+				}
+				return childRes{Status: "fail timeout: " + dump, Trace: readTrace()}
 			}
 		}
 	}
